@@ -154,10 +154,68 @@ pub fn answer_with(b: &mut Bench, req: &str) -> String {
     }
     let cur: usize = parts[6].trim().parse().unwrap_or(0);
     let line = parts[7];
+    let repeat_protocol = parts[0].starts_with("xr");
+    if parts[0].starts_with("xs") {
+        // a straight-line sequence `l1 ; l2 ; ...` executed one line after the other (state carried over)
+        let mut last = State::NEXT;
+        let mut failed: Option<&str> = None;
+        for (k, l) in line.split(" ; ").enumerate() {
+            let vm = &mut b.vm;
+            let interp = &b.interp;
+            match catch_unwind(AssertUnwindSafe(|| interp.parse(cur + k, vm, &mut ctx, l).map_err(|_| ()))) {
+                Err(_) => {
+                    failed = Some("PANIC");
+                    break;
+                }
+                Ok(Err(())) => {
+                    failed = Some("ERR");
+                    break;
+                }
+                Ok(Ok(st)) => last = st,
+            }
+        }
+        let out = match failed {
+            Some(f) => {
+                b.diff_and_restore();
+                f.to_string()
+            }
+            None => {
+                let regs = regs_of(&b.vm);
+                let d = b.diff_and_restore();
+                let ds = if d.is_empty() { "-".to_string() } else { d.iter().map(|(a, v)| format!("{}:{}", a, v)).collect::<Vec<_>>().join(",") };
+                let cs = if ctx.call_stack.is_empty() { "-".to_string() } else { ctx.call_stack.iter().map(|n| n.to_string()).collect::<Vec<_>>().join(",") };
+                format!("{} | {} | {} | {}", state_str(&last), regs, ds, cs)
+            }
+        };
+        for (a, old) in poked.into_iter().rev() {
+            b.base[a] = old;
+            b.vm.mem[a] = old;
+        }
+        return out;
+    }
     let r = {
         let vm = &mut b.vm;
         let interp = &b.interp;
-        catch_unwind(AssertUnwindSafe(|| interp.parse(cur, vm, &mut ctx, line).map_err(|_| ())))
+        catch_unwind(AssertUnwindSafe(|| {
+            if repeat_protocol {
+                // the driver's loop: re-issue the same line while the answer is REPEAT
+                let mut n = 0u32;
+                loop {
+                    match interp.parse(cur, vm, &mut ctx, line) {
+                        Ok(State::REPEAT) => {
+                            n += 1;
+                            if n > 70_000 {
+                                return Ok(State::REPEAT);
+                            }
+                        }
+                        Ok(s) => return Ok(s),
+                        Err(_) => return Err(()),
+                    }
+                }
+            } else {
+                interp.parse(cur, vm, &mut ctx, line).map_err(|_| ())
+            }
+        }))
     };
     let out = match r {
         Err(_) => {
@@ -480,7 +538,148 @@ impl Gen {
     }
 }
 
+const JUMPS: [&str; 23] = [
+    "jmp", "ja", "jae", "jb", "jbe", "jc", "je", "jg", "jge", "jl", "jle", "jnc", "jne", "jno", "jnp", "jns", "jo", "jp",
+    "js", "jcxz", "loop", "loope", "loopne",
+];
+
+/// exhaustive: every jump mnemonic x all 32 settings of CF PF ZF SF OF x 4 settings of the other bits x CX lattice
+fn run_jumpx<W: Write>(thorough: bool, seed: u64, shard: u64, nshards: u64, out: &mut W) {
+    let mut g = Gen { rng: Rng::new(seed ^ 0x6a6a), memseed: seed % 7 + 1 };
+    let mut b = Bench::new();
+    let others: [u16; 4] = [0x0000, 0xF000, 0xF72A, 0x0712];
+    let mut cxs: Vec<u16> = vec![0, 1, 2, 0x7FFF, 0x8000, 0xFFFE, 0xFFFF, 0x100, 0xFF];
+    let extra = if thorough { 4096 } else { 24 };
+    for _ in 0..extra {
+        cxs.push(g.rng.next() as u16);
+    }
+    for j in JUMPS.iter() {
+        for bits in 0..32u16 {
+            let five = (bits & 1) | ((bits >> 1 & 1) << 2) | ((bits >> 2 & 1) << 6) | ((bits >> 3 & 1) << 7) | ((bits >> 4 & 1) << 11);
+            for o in others.iter() {
+                let fl = (o & !0x08C5) | five;
+                let cx_dependent = matches!(*j, "jcxz" | "loop" | "loope" | "loopne");
+                for (k, cx) in cxs.iter().enumerate() {
+                    if !cx_dependent && k >= 2 {
+                        break;
+                    }
+                    let mut r = g.regs();
+                    r[0] = fl;
+                    r[3] = *cx;
+                    let regs = r.iter().map(|x| x.to_string()).collect::<Vec<_>>().join(" ");
+                    let req = format!("x {} | {} | - | {} | {} | 4,17,2 | {} | {} {}", regs, g.memseed, LABELS, FNS, g.rng.below(50), j, g.rng.pick(&["lab", "far", "start"]));
+                    if crate::rng::fnv1a(&req) % nshards != shard {
+                        continue;
+                    }
+                    let a = answer_with(&mut b, &req);
+                    writeln!(out, "{} => {}", req, a).unwrap();
+                }
+            }
+        }
+    }
+}
+
+/// REP protocol driven to completion: every string mnemonic x width x DF x prefix x CX in 0..=64 (+ larger)
+fn run_rep<W: Write>(thorough: bool, seed: u64, shard: u64, nshards: u64, out: &mut W) {
+    let mut g = Gen { rng: Rng::new(seed ^ 0x7e9), memseed: seed % 7 + 1 };
+    let mut b = Bench::new();
+    let mut cxs: Vec<u16> = (0..=64).collect();
+    if thorough {
+        cxs.extend_from_slice(&[255, 256, 4095, 32768, 65535]);
+        for _ in 0..8 {
+            cxs.push(g.rng.next() as u16);
+        }
+    } else {
+        cxs.extend_from_slice(&[255, 300]);
+    }
+    let rounds = if thorough { 6 } else { 1 };
+    for _ in 0..rounds {
+        for op in ["movs", "lods", "stos", "cmps", "scas"].iter() {
+            for w in ["byte", "word"].iter() {
+                for pre in ["rep", "repz", "repnz"].iter() {
+                    for df in [false, true].iter() {
+                        for cx in cxs.iter() {
+                            let mut r = g.regs();
+                            r[0] = if *df { r[0] | 0x0400 } else { r[0] & !0x0400 };
+                            r[3] = *cx;
+                            // make comparisons interesting: sometimes DS:SI and ES:DI alias (equal runs), and
+                            // poke a few equal / different bytes
+                            if g.rng.chance(1, 2) {
+                                r[13] = r[11];
+                                r[8] = r[7];
+                            }
+                            let regs = r.iter().map(|x| x.to_string()).collect::<Vec<_>>().join(" ");
+                            let mut pokes: Vec<String> = Vec::new();
+                            if g.rng.chance(1, 2) {
+                                // a run of bytes equal to AL / to each other at ES:DI, so that REPE/REPNE run for a while
+                                let base = (r[13] as u32) * 16;
+                                let al = r[1] & 0xFF;
+                                let n = g.rng.below(12) as u32;
+                                for k in 0..n {
+                                    let off = if *df { r[8].wrapping_sub(k as u16) } else { r[8].wrapping_add(k as u16) };
+                                    pokes.push(format!("{}:{}", (base + off as u32) & 0xFFFFF, al));
+                                }
+                            }
+                            let pk = if pokes.is_empty() { "-".to_string() } else { pokes.join(",") };
+                            let req = format!("xr {} | {} | {} | {} | {} | - | {} | {} {} {}", regs, g.memseed, pk, LABELS, FNS, g.rng.below(50), pre, op, w);
+                            if crate::rng::fnv1a(&req) % nshards != shard {
+                                continue;
+                            }
+                            let a = answer_with(&mut b, &req);
+                            writeln!(out, "{} => {}", req, a).unwrap();
+                        }
+                    }
+                }
+            }
+        }
+    }
+}
+
+/// random interleavings of pushes and pops (and a few moves) as one straight-line sequence
+fn run_stackseq<W: Write>(thorough: bool, seed: u64, shard: u64, nshards: u64, out: &mut W) {
+    let mut g = Gen { rng: Rng::new(seed ^ 0x57ac), memseed: seed % 7 + 1 };
+    let mut b = Bench::new();
+    let n = if thorough { 20_000 } else { 2_000 };
+    let maxlen = if thorough { 2000 } else { 64 };
+    for i in 0..n {
+        let len = 1 + g.rng.below(if i % 50 == 0 { maxlen } else { 24 }) as usize;
+        let mut lines: Vec<String> = Vec::new();
+        for _ in 0..len {
+            let class = *g.rng.pick(&["stack", "stack", "stack", "mov"]);
+            lines.push(g.line(class));
+        }
+        let mut r = g.regs();
+        // SS:SP families: SP 0,1,0xFFFF, top of the 1 MB space
+        match g.rng.below(6) {
+            0 => r[5] = 0,
+            1 => r[5] = 1,
+            2 => r[5] = 0xFFFF,
+            3 => {
+                r[12] = 0xFFFF;
+                r[5] = 0x10 + g.rng.below(8) as u16;
+            }
+            _ => {}
+        }
+        let regs = r.iter().map(|x| x.to_string()).collect::<Vec<_>>().join(" ");
+        let req = format!("xs {} | {} | - | {} | {} | - | {} | {}", regs, g.memseed, LABELS, FNS, g.rng.below(50), lines.join(" ; "));
+        if crate::rng::fnv1a(&req) % nshards != shard {
+            continue;
+        }
+        let a = answer_with(&mut b, &req);
+        writeln!(out, "{} => {}", req, a).unwrap();
+    }
+}
+
 pub fn run<W: Write>(group: &str, thorough: bool, seed: u64, shard: u64, nshards: u64, out: &mut W) {
+    if group == "stackseq" {
+        return run_stackseq(thorough, seed, shard, nshards, out);
+    }
+    if group == "jumpx" {
+        return run_jumpx(thorough, seed, shard, nshards, out);
+    }
+    if group == "rep" {
+        return run_rep(thorough, seed, shard, nshards, out);
+    }
     let mut g = Gen { rng: Rng::new(seed ^ 0x2222 ^ crate::rng::fnv1a(group)), memseed: seed % 7 + 1 };
     let mut b = Bench::new();
     let classes: Vec<&str> = if group == "all" {
